@@ -255,6 +255,8 @@ func withFault(sim *pgsim.DB, plan faultPlan, op func()) opTrace {
 type evOp struct {
 	Kind    string // create, revert, saveTxMeta, deleteTxMeta, saveAccMeta, deleteAccMeta, insertSchema
 	Post    ledger.Postings
+	Script  string // create only: a Numscript program instead of postings (it may set transaction metadata itself)
+	MetaNil bool   // create by script only: the request carries no metadata object at all
 	Ref     string
 	TxID    uint64
 	Force   bool
@@ -275,6 +277,12 @@ func (o evOp) String() string {
 	switch o.Kind {
 	case "create":
 		s = "create[" + postingsStr(o.Post) + "]"
+		if o.Script != "" {
+			s = fmt.Sprintf("create script %q metadata=%v", o.Script, o.Meta)
+			if o.MetaNil {
+				s = fmt.Sprintf("create script %q metadata=nil", o.Script)
+			}
+		}
 		if o.Ref != "" {
 			s += " ref=" + o.Ref
 		}
@@ -336,6 +344,12 @@ func (o evOp) run(ctx context.Context, c ledgercontroller.Controller) (log *ledg
 	switch o.Kind {
 	case "create":
 		run := ledgercontroller.TxToScriptData(ledger.TransactionData{Postings: o.Post, Metadata: toMD(o.Meta), Reference: o.Ref}, o.Force)
+		if o.Script != "" {
+			run = ledgercontroller.RunScript{Script: ledgercontroller.Script{Plain: o.Script, Vars: map[string]string{}}, Metadata: toMD(o.Meta), Reference: o.Ref}
+			if o.MetaNil {
+				run.Metadata = nil
+			}
+		}
 		log, _, hit, err = c.CreateTransaction(ctx, ledgercontroller.Parameters[ledgercontroller.CreateTransaction]{DryRun: o.DryRun, IdempotencyKey: o.IK,
 			Input: ledgercontroller.CreateTransaction{RunScript: run, AccountMetadata: o.accMeta()}})
 	case "revert":
